@@ -98,6 +98,11 @@ def make_case(params):
 		Qs[len(Qs) // 2] = unknown
 		Qs[-2] = flat.copy()
 		Qs[0] = make_onehot(r, 25)
+	if params.get("extra_row"):
+		# targets with one row more than the queries (an alphabet with an
+		# extra symbol, as in the package's own homopolymer test)
+		Ts = [numpy.ascontiguousarray(numpy.vstack([t, (nr.random((1,
+			t.shape[1])) < .4).astype(t.dtype)])) for t in Ts]
 	if params.get("dup_targets") and len(Ts) >= 3:
 		# identical targets: exact p-value ties inside every row
 		Ts[-1] = Ts[0].copy()
@@ -555,7 +560,8 @@ def gen_params(seed, k):
 		"n_target_bins": r.choice([None, None, 100, 20]),
 		"n_score_bins": r.choice([10, 25, 50, 100, 100, 200]),
 		"grid": r.choice(["fine", "fine", "coarse"]),
-		"dup_targets": k % 2 == 1, "degenerate": k % 6 == 5}
+		"dup_targets": k % 2 == 1, "degenerate": k % 6 == 5,
+		"extra_row": k % 5 == 2}
 
 
 def plan(tier, seed):
